@@ -339,7 +339,9 @@ func c15Render(cases []*c15Case) string {
 			if cs.t.kind == tyArrow && !cs.t.paren {
 				fo = "(" + fo + ")"
 			}
-			fmt.Fprintf(&sb, "package_info _ =\n  let ext%d: %s->int\n\nlet w%d x =\n  ext%d x\n\n", i, fo, i, i)
+			// the declaration before it has type parameters NAMED like the types the signature may mention: they belong
+			// to that declaration only (genuine defect 481c6f0: they stayed in scope for the rest of the block)
+			fmt.Fprintf(&sb, "package_info _ =\n  let pre%d<Rec, G>: Rec->G->Rec\n  let ext%d: %s->int\n\nlet w%d x =\n  ext%d x\n\n", i, i, fo, i, i)
 		case 4:
 			fmt.Fprintf(&sb, "let w%d () =\n  mk<%s> ()\n\n", i, cs.fo)
 		}
